@@ -34,7 +34,16 @@ type c19Scenario struct {
 	Cycles     int      `json:"cycles"`        // the same client negotiates again after a reconnect (0/1 = once)
 	LateNak    bool     `json:"late_nak"`      // after everything else the server NAKs a request naming a capability that is held
 	ReAck      bool     `json:"re_ack"`        // the server acknowledges the same capabilities once more (sasl then starts again)
+	// AbortAt (sessions leg): the link drops at this point of the negotiation: "" never, "ls" before the server
+	// answered CAP LS, "req" after the request, "mech" after AUTHENTICATE <mechanism>, "data" after the SASL data
+	AbortAt string `json:"abort_at,omitempty"`
+	// AppReq (sessions leg): after the negotiation the application itself requests a capability the
+	// server never listed, through Conn.Cap, and the server acknowledges it
+	AppReq bool `json:"app_req,omitempty"`
 }
+
+// errC19Abort is how a negotiation script says "the link drops here" (not a violation).
+var errC19Abort = &Violation{Property: "C19", Key: "abort"}
 
 // capModel is the negotiation model written from the property statement.
 type capModel struct {
@@ -138,7 +147,10 @@ func runC19(sc *c19Scenario) *Violation {
 				return violationf("C19", "no DISCONNECTED between negotiation cycles")
 			}
 			waitCond(stallTimeout(), func() bool { n, _, _ := connGoroutines(tc.C); return n == 0 })
-			m.awaiting = false // a new connection starts a new SASL exchange; what was advertised / held is kept
+			// a new connection starts a new negotiation: nothing its predecessor's server advertised or
+			// enabled carries over
+			m.awaiting = false
+			m.advertised, m.held = map[string]bool{}, map[string]bool{}
 		}
 		if v := runC19Once(sc, tc, m, cycle); v != nil {
 			if cycle > 0 {
@@ -188,7 +200,7 @@ func runC19Once(sc *c19Scenario, tc *testClient, m *capModel, cycle int) *Violat
 		return nil
 	}
 	checkHeld := func(where string) *Violation {
-		for _, c := range append(append([]string{}, sc.Wanted...), append(sc.Advertised, "sasl", "zzz")...) {
+		for _, c := range append(append([]string{}, sc.Wanted...), append(sc.Advertised, "sasl", "zzz", "app-cap", "a", "b", "z")...) {
 			if got, want := tc.C.SupportsCapability(c), m.advertised[c]; got != want {
 				return violationf("C19", "%s: SupportsCapability(%q) = %v, advertised: %v", where, c, got, want)
 			}
@@ -204,6 +216,9 @@ func runC19Once(sc *c19Scenario, tc *testClient, m *capModel, cycle int) *Violat
 	}
 	if v := expectLines("on connect", got, []string{"CAP LS"}); v != nil {
 		return v
+	}
+	if sc.AbortAt == "ls" {
+		return errC19Abort
 	}
 	if sc.Stray {
 		got, v := step("AUTHENTICATE +")
@@ -281,6 +296,9 @@ func runC19Once(sc *c19Scenario, tc *testClient, m *capModel, cycle int) *Violat
 		}
 		return nil
 	}
+	if sc.AbortAt == "req" {
+		return errC19Abort
+	}
 	ack := func(where string, caps []string) *Violation {
 		want := m.onACK(caps)
 		got, v := step(":irc.server CAP me ACK :" + strings.Join(caps, " "))
@@ -296,6 +314,9 @@ func runC19Once(sc *c19Scenario, tc *testClient, m *capModel, cycle int) *Violat
 		if !m.awaiting {
 			return nil
 		}
+		if sc.AbortAt == "mech" {
+			return errC19Abort
+		}
 		if !sc.EarlyEnd {
 			want := m.onAuthPlus()
 			got, v := step("AUTHENTICATE +")
@@ -304,6 +325,9 @@ func runC19Once(sc *c19Scenario, tc *testClient, m *capModel, cycle int) *Violat
 			}
 			if v := expectLines("server asked for SASL data", got, want); v != nil {
 				return v
+			}
+			if sc.AbortAt == "data" {
+				return errC19Abort
 			}
 		} else {
 			m.awaiting = false // the exchange is over without the data ever being requested
@@ -409,7 +433,154 @@ func runC19Once(sc *c19Scenario, tc *testClient, m *capModel, cycle int) *Violat
 	if !sawEnd {
 		return violationf("C19", "script finished but the last negotiation line the client sent is not CAP END")
 	}
+	if sc.AppReq {
+		tc.C.Cap("REQ", "app-cap")
+		got, v := step()
+		if v != nil {
+			return v
+		}
+		if v := expectLines("application called Cap(REQ, app-cap)", got, []string{"CAP REQ :app-cap"}); v != nil {
+			return v
+		}
+		if v := ack("after the server acknowledged the application's own request", []string{"app-cap"}); v != nil {
+			return v
+		}
+	}
 	return nil
+}
+
+// ---------------------------------------------------------------------------
+// sessions leg: several negotiations on one client, the configuration changed
+// through Config() in between, links that drop in the middle of a negotiation
+// ---------------------------------------------------------------------------
+
+type c19Session struct {
+	Rounds []c19Scenario `json:"rounds"`
+	Drops  []string      `json:"drops"` // how the link of round k ends: close, eof
+}
+
+func c19Configure(cfg *client.Config, sc *c19Scenario) {
+	cfg.EnableCapabilityNegotiation = true
+	cfg.Capabilites = append([]string{}, sc.Wanted...)
+	switch sc.Sasl {
+	case "PLAIN":
+		cfg.Sasl = sasl.NewPlainClient(string(sc.Authzid), string(sc.User), string(sc.Pass))
+	case "EXTERNAL":
+		cfg.Sasl = sasl.NewExternalClient(string(sc.Authzid))
+	default:
+		cfg.Sasl = nil
+	}
+}
+
+func runC19Session(ss *c19Session) *Violation {
+	tc := newTestClient(cliOpts{Flood: true, Configure: func(cfg *client.Config) { c19Configure(cfg, &ss.Rounds[0]) }})
+	defer tc.shutdown()
+	disc := make(chan struct{}, 8)
+	tc.C.HandleFunc(client.DISCONNECTED, func(*client.Conn, *client.Line) { disc <- struct{}{} })
+	var prev *capModel
+	for k := range ss.Rounds {
+		sc := &ss.Rounds[k]
+		if k > 0 {
+			// the application reconfigures the existing client before it connects again
+			c19Configure(tc.C.Config(), sc)
+		}
+		m := newCapModel(sc)
+		_ = prev // capabilities are a property of one connection: nothing is carried over
+		v := runC19Once(sc, tc, m, k)
+		if v != nil && v != errC19Abort {
+			v.Msg = fmt.Sprintf("negotiation %d of %d on the same client: %s", k+1, len(ss.Rounds), v.Msg)
+			return v
+		}
+		prev = m
+		// the link ends
+		if ss.Drops[k] == "eof" {
+			tc.conn().EOFNow()
+		} else {
+			go tc.C.Close()
+		}
+		select {
+		case <-disc:
+		case <-time.After(stallTimeout()):
+			return violationf("C19", "no DISCONNECTED after negotiation %d", k+1)
+		}
+		waitCond(stallTimeout(), func() bool { n, _, _ := connGoroutines(tc.C); return n == 0 })
+	}
+	return nil
+}
+
+func genC19Session(t *rapid.T) *c19Session {
+	ss := &c19Session{}
+	n := rapid.IntRange(2, 3).Draw(t, "rounds")
+	for k := 0; k < n; k++ {
+		sc := c19Scenario{Sasl: rapid.SampledFrom([]string{"", "PLAIN", "PLAIN", "EXTERNAL"}).Draw(t, "sasl"), Authzid: "", User: "user", Pass: "p w",
+			Reply:   rapid.SampledFrom([]string{"ack", "ack", "nak", "ack_split", "ack_reversed", "two_ls", "ack_then_minus"}).Draw(t, "reply"),
+			Outcome: rapid.SampledFrom([]string{"903", "904", "908"}).Draw(t, "outcome"),
+			Stray:   rapid.IntRange(0, 3).Draw(t, "stray") == 0, EarlyEnd: rapid.IntRange(0, 3).Draw(t, "early_end") == 0,
+			LateNak: rapid.IntRange(0, 4).Draw(t, "late_nak") == 0, ReAck: rapid.IntRange(0, 4).Draw(t, "re_ack") == 0,
+			AppReq: rapid.IntRange(0, 3).Draw(t, "app_req") == 0}
+		for _, c := range []string{"a", "b", "z"} {
+			if rapid.Bool().Draw(t, "wanted_"+c) {
+				sc.Wanted = append(sc.Wanted, c)
+			}
+		}
+		for _, c := range []string{"a", "b", "z", "sasl", "sasl"} {
+			if rapid.Bool().Draw(t, "advertised_"+c) && !(c == "sasl" && len(sc.Advertised) > 0 && sc.Advertised[len(sc.Advertised)-1] == "sasl") {
+				sc.Advertised = append(sc.Advertised, c)
+			}
+		}
+		if k < n-1 && rapid.IntRange(0, 2).Draw(t, "aborted") == 0 {
+			sc.AbortAt = rapid.SampledFrom([]string{"ls", "req", "mech", "mech", "data"}).Draw(t, "abort_at")
+		}
+		ss.Rounds = append(ss.Rounds, sc)
+		ss.Drops = append(ss.Drops, rapid.SampledFrom([]string{"close", "eof"}).Draw(t, "drop"))
+	}
+	return ss
+}
+
+func TestC19_Sessions(t *testing.T) {
+	col := evid.New("C19", "sessions leg: 2..3 negotiations on one client over the universe {a,b,z,sasl}, each with its own wanted set / SASL mechanism (installed through Config() on the existing client), advertised set, server reply and SASL outcome; a negotiation may be cut short by the link dropping before the LS reply, after the request, after AUTHENTICATE <mechanism> or after the SASL data; the application may request a never-listed capability itself through Conn.Cap; oracle: the per-connection negotiation model; non-trivial = the rounds differ in wanted, advertised or mechanism, or one is cut short; distinct by scenario")
+	defer finish(t, col)
+	rapid.Check(t, func(t *rapid.T) {
+		ss := genC19Session(t)
+		v := runC19Session(ss)
+		b, _ := json.Marshal(ss)
+		nt := false
+		cls := []string{}
+		for k := range ss.Rounds {
+			r := &ss.Rounds[k]
+			if r.AbortAt != "" {
+				nt = true
+				cls = append(cls, "link_drops_at="+r.AbortAt)
+			}
+			if r.AppReq {
+				cls = append(cls, "application_cap_req")
+			}
+			if k > 0 {
+				p := &ss.Rounds[k-1]
+				if fmt.Sprint(p.Wanted) != fmt.Sprint(r.Wanted) || fmt.Sprint(p.Advertised) != fmt.Sprint(r.Advertised) || p.Sasl != r.Sasl {
+					nt = true
+				}
+				if p.Sasl != "" && r.Sasl == "" {
+					cls = append(cls, "sasl_switched_off")
+				}
+			}
+		}
+		col.Case(string(b), nt, uniqStrings(cls)...)
+		if len(b) < 900 {
+			col.Sample(ss)
+		}
+		if v != nil {
+			failRapid(t, "TestC19_Sessions", v, ss)
+		}
+	})
+}
+
+func TestC19_Sessions_Replay(t *testing.T) {
+	var ss c19Session
+	loadReplay(t, &ss)
+	if v := runC19Session(&ss); v != nil {
+		t.Fatalf("REPRODUCED %s", v.Msg)
+	}
 }
 
 func (sc *c19Scenario) nontrivial() bool {
@@ -569,4 +740,28 @@ func TestC19_Replay(t *testing.T) {
 	if v := runC19(&sc); v != nil {
 		t.Fatalf("REPRODUCED %s", v.Msg)
 	}
+}
+
+// TestC19_Regress replays, without the generator library, the histories behind the defects that were
+// repaired in goirc (known_findings.json): they must stay repaired.
+func TestC19_Regress(t *testing.T) {
+	col := evid.New("C19", "regression leg: the minimal histories of repaired defects, replayed as plain scenarios")
+	defer finish(t, col)
+	// stale SASL initial response sent on the next connection after a stray AUTHENTICATE +
+	d14 := &c19Scenario{Sasl: "PLAIN", User: "user", Pass: "p w", Advertised: []string{"sasl"}, Reply: "ack", Outcome: "904", Stray: true, EarlyEnd: true, Cycles: 2}
+	if v := runC19(d14); v != nil {
+		writeReplay("TestC19", v, d14)
+		t.Fatalf("VIOLATION C19: %s", v.Msg)
+	}
+	col.Case("d14", true, "regression")
+	// capabilities advertised / enabled on an earlier connection survive the reconnect
+	d15 := &c19Session{Drops: []string{"close", "close"}, Rounds: []c19Scenario{
+		{Wanted: []string{"a", "b"}, Advertised: []string{"a", "b"}, Reply: "ack", Outcome: "903", User: "user", Pass: "p w"},
+		{Wanted: []string{"a", "b"}, Advertised: []string{"a"}, Reply: "ack", Outcome: "903", User: "user", Pass: "p w"},
+	}}
+	if v := runC19Session(d15); v != nil {
+		writeReplay("TestC19_Sessions", v, d15)
+		t.Fatalf("VIOLATION C19: %s", v.Msg)
+	}
+	col.Case("d15", true, "regression")
 }
